@@ -11,6 +11,8 @@ Template directives (each on its own line, starting with //@):
     //@rule Rn [min=K]              enable rewrite rule; fewer than K hits => anchor lost (exit 2)
     //@presub /regex/ => repl [min=K] [count=N]     substitution before the rules (R11)
     //@sub /regex/ => repl [min=K] [count=N]        substitution after the rules (R11)
+    //@as NAME                      label prefix of this extraction (default: the extracted fn's name); use it when
+                                    several pieces are cut from one fn or several fns share a name (`next`)
     //@header TEXT                  signature for loopbody/closure (everything before the `{`)
     //@ret NAME                     `-> T` becomes `-> (NAME: T)`
     //@sig                          following lines go between signature and body
@@ -143,7 +145,7 @@ class Unit:
         except OSError:
             raise AnchorLost('file %s missing' % relpath)
         rules, presubs, subs = [], [], []
-        header = ret = None
+        header = ret = as_name = None
         skipbody = False
         splices = []   # dict(kind, arg, lines)
         cur = None
@@ -168,6 +170,9 @@ class Unit:
                 cur = None
             elif bs.startswith('//@ret'):
                 ret = bs.split()[1]
+                cur = None
+            elif bs.startswith('//@as '):
+                as_name = bs.split()[1]
                 cur = None
             elif bs.startswith('//@skipbody'):
                 skipbody = True
@@ -275,6 +280,8 @@ class Unit:
         fname = name if kind != 'loopbody' else re.search(r'fn\s+(\w+)', header).group(1)
         if kind == 'closure':
             fname = arg if not header else re.search(r'fn\s+(\w+)', header).group(1)
+        if as_name:
+            fname = as_name
         tag_base = {'kind': 'code', 'fn': fname, 'file': relpath}
 
         if not fn_like:
